@@ -6,7 +6,7 @@ import valenc
 import wcag_ref
 from common import proof_status, repo_import
 from opt_common import rand_rgb
-from proto import run_lines
+from proto import run_lines, t3
 from spellings import hsl_string
 
 MATCHERS = {}
@@ -108,8 +108,19 @@ def check(run):
     mo = run_lines([valenc.mr_line(c[0], c[1], False, 1, False) for c in sub], chunks=16)
     from opt_common import pool, w_api
     comp = {}
+    kept = []
     for c in sub:
-        comp[id(c)] = tuple(ColorPair(c[0], c[1]).text.rgb)
+        pc = ColorPair(c[0], c[1])
+        if not pc.is_valid:
+            # (already reported above as a rejected translucent value; nothing to composite)
+            run.violation("a translucent colour in one of the listed spellings is rejected", {"text": repr(c[0]), "bg": repr(c[1])}, got=pc.errors)
+            continue
+        comp[id(c)] = tuple(pc.text.rgb)
+        kept.append(c)
+    if len(kept) != len(sub):
+        keep_ids = {id(c) for c in kept}
+        mo = [m for c, m in zip(sub, mo) if id(c) in keep_ids]
+        sub = kept
     with pool() as pl:
         r1 = pl.map(w_api, [(c[0], c[1], False, 1, False) for c in sub], chunksize=2)
         r2 = pl.map(w_api, [(comp[id(c)], c[1], False, 1, False) for c in sub], chunksize=2)
@@ -122,7 +133,7 @@ def check(run):
         if ok != a2["ok"] or a1.get("rb_own") != a2.get("rb_own"):
             run.violation("make_readable on a translucent colour differs from make_readable on its composite",
                           {"text": repr(text), "bg": repr(bgv)}, got=[out, ok], composite=[a2["out"], a2["ok"]])
-        enc = ("t:%d,%d,%d" % tuple(out) if isinstance(out, tuple) else "s:" + out.encode().hex()) + (" 1" if ok else " 0")
+        enc = (t3(out) if isinstance(out, (tuple, list)) else "s:" + out.encode().hex() if isinstance(out, str) else "x:" + repr(out)) + (" 1" if ok else " 0")
         if enc != m:
             run.diverge("make_readable==Cm.ColorPair.makeReadable", {"text": repr(text), "bg": repr(bgv)}, enc, m)
     # CSS Color 4 space/slash spellings: not required to be accepted, but if they are, the alpha must be honoured
